@@ -23,19 +23,24 @@ type Violation struct {
 func (v *Violation) Key() string { return v.Property + "/" + v.Oracle + "/" + v.Signature }
 
 type RunResult struct {
-	Seed     uint64           `json:"seed"`
-	Run      uint64           `json:"run"`
-	Viol     *Violation       `json:"violation,omitempty"`
-	Infra    string           `json:"infra,omitempty"` // harness trouble: exit 2, never a violation
-	Counters map[string]int64 `json:"counters,omitempty"`
-	SchedSig string           `json:"sched_sig,omitempty"`
-	States   []string         `json:"states,omitempty"`
-	NonTriv  bool             `json:"nontrivial,omitempty"`
-	SimTimeS float64          `json:"sim_time_s,omitempty"`
-	Steps    []string         `json:"steps,omitempty"` // labels actually taken (for replay files)
-	Sample   json.RawMessage  `json:"sample,omitempty"`
-	Log      []string         `json:"log,omitempty"`
+	Seed     uint64            `json:"seed"`
+	Run      uint64            `json:"run"`
+	Viol     *Violation        `json:"violation,omitempty"`
+	Infra    string            `json:"infra,omitempty"` // harness trouble: exit 2, never a violation
+	Counters map[string]int64  `json:"counters,omitempty"`
+	SchedSig string            `json:"sched_sig,omitempty"`
+	States   []string          `json:"states,omitempty"`
+	NonTriv  bool              `json:"nontrivial,omitempty"`
+	SimTimeS float64           `json:"sim_time_s,omitempty"`
+	Steps    []string          `json:"steps,omitempty"` // labels actually taken (for replay files)
+	Sample   json.RawMessage   `json:"sample,omitempty"`
+	Log      []string          `json:"log,omitempty"`
+	KnownMsg map[string]string `json:"known_msg,omitempty"`
 }
+
+// Known holds the keys (property/oracle/signature) of known findings; set by
+// the worker from $VERIF_KNOWN before any run.
+var Known = map[string]bool{}
 
 func (r *RunResult) Count(name string, n int64) {
 	if r.Counters == nil {
